@@ -298,6 +298,18 @@ pub fn worker_main() {
                     let shard = req["shard"].as_u64().unwrap_or(0) as u32;
                     reply(json!({"live": hooks::live_segments(shard)}));
                 }
+                "mint_token" => {
+                    // the second step of a connection AUTH (frontend/tcp/listener.rs: verify_signature, then
+                    // generate_session_token) on its own: the driver places other requests between the two steps
+                    let user = req["user"].as_str().unwrap_or("").to_string();
+                    match ctx.auth_manager.as_ref() {
+                        Some(am) => {
+                            let t = am.generate_session_token(&user).await;
+                            reply(json!({"token": t}));
+                        }
+                        None => reply(json!({"error": "no auth manager"})),
+                    }
+                }
                 "tcp_start" => {
                     let ctx2 = Arc::clone(&ctx);
                     tokio::spawn(async move {
